@@ -4,6 +4,7 @@ CONSTANTS Sender = {"s1", "s2", "s3"}
           QueueMode = FALSE
           QCap = 2
           MaxConn = 4
+          Broken = "none"
           NPacks = 6
 CONSTRAINT ConnBound
 VIEW MCView
